@@ -107,3 +107,27 @@ func verifLemma_C39_merge_from_3(k0, k1, k2, v0, v1, v2, o0, o1, w0, w1 string) 
 	clone[0] = vTag(k2, v2)
 	verifrt.Assert(vSame(other[0], vTag(o0, w0)), "clone-is-independent")
 }
+
+// ---- C31: feature-ID order and protobuf round trip --------------------------------
+
+// FeatureID.Less is a strict total order (irreflexive, asymmetric, transitive,
+// total). Namespaces are strings ordered by Go's <, axiomatised as a strict
+// total order.
+func verifLemma_C31_less_strict_total_order(a, b, c FeatureID) {
+	verifrt.Assert(!a.Less(a), "irreflexive")
+	verifrt.Assert(!(a.Less(b) && b.Less(a)), "asymmetric")
+	verifrt.Assert(!(a.Less(b) && b.Less(c)) || a.Less(c), "transitive")
+	verifrt.Assert(a.Less(b) || b.Less(a) || a == b, "total")
+}
+
+// Every valid feature type survives the protobuf enum, and so does a feature ID.
+func verifLemma_C31_type_proto_roundtrip(t FeatureType) {
+	verifrt.Assume(t == FeatureTypePoint || t == FeatureTypePath || t == FeatureTypeArea || t == FeatureTypeRelation || t == FeatureTypeCollection || t == FeatureTypeExpression || t == FeatureTypeInvalid)
+	verifrt.Assert(NewFeatureTypeFromProto(NewProtoFromFeatureType(t)) == t, "type-roundtrip")
+}
+
+func verifLemma_C31_id_proto_roundtrip(id FeatureID) {
+	t := id.Type
+	verifrt.Assume(t == FeatureTypePoint || t == FeatureTypePath || t == FeatureTypeArea || t == FeatureTypeRelation || t == FeatureTypeCollection || t == FeatureTypeExpression || t == FeatureTypeInvalid)
+	verifrt.Assert(NewFeatureIDFromProto(NewProtoFromFeatureID(id)) == id, "id-roundtrip")
+}
